@@ -25,8 +25,9 @@ VARIABLES hist, pubs
 
 gvars == <<vars, hist, pubs>>
 
+SnapProj(s) == IF s = NoSnap THEN [index |-> -1] ELSE s
 NodeProj(n) == [up |-> up'[n], applied |-> applied'[n], data |-> fsm'[n],
-                held |-> snapHeld'[n], file |-> snapFile'[n]]
+                held |-> SnapProj(snapHeld'[n]), file |-> SnapProj(snapFile'[n])]
 Proj == [nodes |-> [n \in Nodes |-> NodeProj(n)], pubs |-> pubs', loglen |-> Len(log')]
 Log(rec) == hist' = Append(hist, rec @@ [st |-> Proj])
 
